@@ -3,6 +3,7 @@
 #![allow(clippy::all)]
 #![allow(dead_code)]
 
+pub mod interleave;
 pub mod props;
 pub mod reference;
 pub mod runner;
